@@ -9,20 +9,24 @@ sees every stack and flavor), plus the state clauses (no dangling tag, unique ke
 runs change nothing, reader = raw files) evaluated on the implementation's listings alone."""
 import json
 import os
+import time
 
 from . import common, lib_db
 from .common import parallel_map
 from .lib_dbref import Ref, dangling_tags, duplicate_keys, frame_breaks, fallbacks
 
-RULE = ("cases = histories of 5-40 commands (declare with/without directory, tag, stack, table=none, force; "
-        "redeclaration with another directory; undeclare with/without version, tag-only, version-and-tag; direct "
-        "assignTag / unassignTag; ~8% dry runs) over 3 products x 3 versions x 2 flavors (Linux native, generic "
-        "fallback, sharing version files) x 2 stacks x 3 global tags, some product directories missing; every "
-        "command is a fresh forked child; a history is non-trivial when at least 3 of its commands change the "
-        "database and at least one is refused or finds nothing; distinct = distinct history digests")
+RULE = ("cases = histories of 5-40 commands (declare with/without directory, tag, stack, table=none, force, external "
+        "files; redeclaration with another directory; undeclare with/without version, tag-only, version-and-tag, with "
+        "the product set up in the environment; remove; direct assignTag / unassignTag; ~8% dry runs) over 3 "
+        "products x 3 versions x 2 flavors (Linux native, generic fallback, sharing version files) x 2 stacks x 3 "
+        "global tags, some product directories missing; every command is a fresh forked child; a history is "
+        "non-trivial when at least 3 of its commands change the database and at least one is refused or finds "
+        "nothing; distinct = distinct history digests; thorough tier: also every history of length 2 over a "
+        "36-command alphabet")
 TRUSTED = ["fork-per-command runner, audit-log mtime normaliser and the Database-only reader of harness/lib_db.py",
            "version names are single-component (the model orders listings by string order; C10 owns version order)",
-           "all stacks writable, no product set up in the environment, global tags only (user tags not modelled)"]
+           "all stacks writable, global tags only (user tags not modelled), tablefile None or \"none\" (interned tables not "
+           "generated)"]
 ASSUMPTIONS = ["a tag (tag, product, flavor) is one designation on the whole EUPS_PATH (DESIGN 6 C06, reading)",
                "table files are compared by identity of their path class (default `ups/<name>.table` or `none`)"]
 
@@ -86,17 +90,29 @@ def d32_class(cmd, rec, want, real):
 
 def observations(rec, m):
     """(implementation, model) observables of one step: outcome, flavors loaded per stack, reader's listing"""
-    impl_obs = {"out": rec["out"], "loaded": rec.get("loaded"), "db": rec["db"]}
-    model_obs = None if m is None else {"out": m["out"], "loaded": m["loaded"] if rec.get("loaded") is not None else None,
-                                        "db": m["db"]}
+    raw = {"vfiles": sorted(rec["raw"]["vfiles"]), "cfiles": sorted(rec["raw"]["cfiles"])} if "raw" in rec else None
+    impl_obs = {"out": rec["out"], "loaded": rec.get("loaded"), "view": rec.get("view"), "db": rec["db"], "raw": raw}
+    has = rec.get("loaded") is not None
+    model_obs = None if m is None else {"out": m["out"], "loaded": m["loaded"] if has else None,
+                                        "view": m["view"] if has else None, "db": m["db"],
+                                        "raw": m.get("raw") if raw is not None else None}
     if m is not None and m.get("crashed") and rec["out"] == "Crashed":
         model_obs["out"] = "Crashed"
+    if "extras" in rec:
+        impl_obs["extras"] = rec["extras"]
+        if model_obs is not None:
+            model_obs["extras"] = m.get("extras")
+    if "would" in rec:
+        impl_obs["would"] = rec["would"]
+        if model_obs is not None:
+            model_obs["would"] = m.get("would")
     return impl_obs, model_obs
 
 
 def oracle_i(ctx, i, sub, rec, impl_obs, model_obs):
     if model_obs is not None and common.jdump(model_obs) != common.jdump(impl_obs):
-        which = [k for k in ("out", "loaded", "db") if common.jdump(model_obs[k]) != common.jdump(impl_obs[k])]
+        which = [k for k in ("out", "loaded", "view", "db", "raw", "would", "extras")
+                 if common.jdump(model_obs.get(k)) != common.jdump(impl_obs.get(k))]
         ctx.disagree("+".join(which), sub, impl_obs, model_obs, note="step %d %s" % (i, rec.get("detail", "")))
         return False
     return True
@@ -117,6 +133,8 @@ def check_case(ctx, case, steps, msteps):
         ctx.hist("cmd=%s/%s" % (kind_of(cmd), rec["out"]))
         if cmd.get("noaction"):
             ctx.hist("dry-run")
+        if cmd.get("ext"):
+            ctx.hist("declare with external files/%s" % rec["out"])
         if "error" in real:
             ctx.fail("reader_total", sub, impl_obs, model_obs, note="fresh reader raised %s" % (real["error"],))
             return
@@ -191,26 +209,66 @@ def evaluate(ctx, cases):
         check_case(ctx, c, steps, lib_db.model_steps(ans))
 
 
+def small_alphabet():
+    """every command of a tiny universe: product p, versions 1-2, both flavors, both stacks, tag beta"""
+    out = []
+    for f in lib_db.FLAVS:
+        for v in ("1", "2"):
+            for si in range(lib_db.NSTACKS):
+                for t in (None, "beta"):
+                    out.append({"op": "declare", "user": "A", "flavor": f, "name": "p", "version": v,
+                                "dir": [si, lib_db.rel_of(f, "p", v)], "tag": t})
+            out.append({"op": "declare", "user": "A", "flavor": f, "name": "p", "version": v, "tag": "beta"})
+            out.append({"op": "assignTag", "user": "A", "flavor": f, "name": "p", "version": v, "tag": "beta"})
+        for v in ("1", "2", None):
+            out.append({"op": "undeclare", "user": "A", "flavor": f, "name": "p", "version": v})
+        for v in ("1", None):
+            out.append({"op": "undeclare", "user": "A", "flavor": f, "name": "p", "version": v, "tag": "beta"})
+        out.append({"op": "undeclare", "user": "A", "flavor": f, "name": "p", "tag": "beta", "vat": True})
+    return out
+
+
+def exhaustive(ctx):
+    """thorough tier: every history of length 2 over the small alphabet, and a sample of those of length 3"""
+    import itertools
+    al = small_alphabet()
+    ctx.hist("exhaustive alphabet", len(al))
+    pairs = [{"missing": [], "cmds": [dict(a), dict(b)]} for a, b in itertools.product(al, al)]
+    for i in range(0, len(pairs), 120):
+        if ctx.out_of_time():
+            return
+        evaluate(ctx, pairs[i:i + 120])
+    ctx.hist("exhaustive length-2 histories", len(pairs))
+    ctx.note("every history of length 2 over an alphabet of %d commands was run (%d histories)" % (len(al), len(pairs)))
+    for _ in range(50):
+        if ctx.out_of_time():
+            return
+        evaluate(ctx, [{"missing": [], "cmds": [dict(ctx.rng.choice(al)) for _ in range(3)]} for _ in range(120)])
+
+
 def run(ctx):
     cases = corpus_cases()
     ctx.hist("corpus", len(cases))
     evaluate(ctx, cases)
     n = ctx.n(300, 10000)
     done = 0
-    soft = ctx.t0 + (110 if ctx.tier == "quick" and not ctx.escalated else 1e9)   # keep the quick tier under ~3 minutes
-    import time
+    soft = ctx.t0 + (85 if ctx.tier == "quick" and not ctx.escalated else 1e9)   # keep the quick tier under ~3 minutes
     while done < n and not ctx.out_of_time() and time.time() < soft:
-        k = min(60, n - done)
+        k = min(48, n - done)
         evaluate(ctx, [lib_db.gen_history(ctx.rng, ctx.rng.randint(5, 40)) for _ in range(k)])
         done += k
     if ctx.evaluations and ctx.distinct_nontrivial < ctx.evaluations * 0.3:
         raise common.InfraError("degenerate distribution: %d non-trivial of %d" % (ctx.distinct_nontrivial, ctx.evaluations))
+    if ctx.tier == "thorough":
+        exhaustive(ctx)
+    shrink_failures(ctx)
     moved = ctx.histogram.get("tag-moved", 0)
     if ctx.evaluations > 50 and moved < ctx.evaluations:
         raise common.InfraError("degenerate distribution: only %d tag moves in %d histories" % (moved, ctx.evaluations))
 
 
 def replay(ctx, rp):
+    common.import_eups()
     case = rp["input"]
     steps = _run_one(case)
     ans = ctx.lean.ask(lib_db.model_request(case))
@@ -228,32 +286,68 @@ def replay(ctx, rp):
 
 # ---- shrinking -----------------------------------------------------------------------------------
 
-def fails_with(ctx, case, clause, need_model=True):
-    """does the history still break `clause` at its last command? (fresh run of implementation and model)"""
-    steps = _run_one(case)
-    if isinstance(steps, dict):
-        return False
-    ms = lib_db.model_steps(ctx.lean.ask(lib_db.model_request(case))) if need_model else None
-    sub = common.Ctx("C06", "quick", 0, 60)
-    check_case(sub, case, steps, ms)
-    last = len(case["cmds"])
-    return any(f["clause"] == clause and len(f["input"]["cmds"]) == last for f in sub.failures)
+def make_shrinker(pid, run_one, check, m):
+    """delta-debugging of a failing history for the harness `check` of property `pid` (the failing command stays
+    last; the failure must keep its clause and stay at the last command)"""
+
+    def evaluate_one(ctx, case):
+        steps = run_one(case)
+        if isinstance(steps, dict):
+            return None
+        ms = lib_db.model_steps(ctx.lean.ask(lib_db.model_request(case, m=m)))
+        sub = common.Ctx(pid, "quick", 0, 60)
+        check(sub, case, steps, ms)
+        return sub
+
+    def fails_with(ctx, case, clause):
+        sub = evaluate_one(ctx, case)
+        last = len(case["cmds"])
+        if sub is None:
+            return None
+        for f in sub.failures:
+            if f["clause"] == clause and len(f["input"]["cmds"]) == last:
+                return f
+        return None
+
+    def shrink(ctx, inp, clause, max_tests=40, deadline=None):
+        cmds = inp["cmds"]
+        head, last = cmds[:-1], cmds[-1]
+
+        def still(sub):
+            if deadline and time.time() > deadline:
+                return False
+            return fails_with(ctx, {"missing": inp["missing"], "cmds": list(sub) + [last]}, clause) is not None
+        if head and still([]):
+            head = []
+        elif len(head) >= 2:
+            head = common.ddmin(head, still, max_tests=max_tests)
+        out = {"missing": inp["missing"], "cmds": head + [last]}
+        if inp["missing"] and fails_with(ctx, {"missing": [], "cmds": out["cmds"]}, clause):
+            out["missing"] = []
+        return out
+
+    def shrink_failures(ctx, max_clauses=3, seconds=45):
+        """replace the first failure of up to `max_clauses` clauses that will be reported as violations by a
+        shrunk one (same clause, fresh outputs); the others stay as found"""
+        deadline = time.time() + seconds
+        done = set()
+        for f in list(ctx.failures):
+            agrees = f.get("model_output") is not None and common.jdump(f["model_output"]) == common.jdump(f["impl_output"])
+            if f.get("finding_class") and agrees:
+                continue
+            if f["clause"] in done or len(done) >= max_clauses or time.time() > deadline:
+                continue
+            done.add(f["clause"])
+            try:
+                small = shrink(ctx, f["input"], f["clause"], deadline=deadline)
+                g = fails_with(ctx, small, f["clause"])
+            except Exception:  # noqa: shrinking is best effort
+                g = None
+            if g is not None and len(small["cmds"]) <= len(f["input"]["cmds"]):
+                g = dict(g)
+                g["note"] = (g.get("note", "") + " [shrunk from %d commands]" % len(f["input"]["cmds"])).strip()
+                ctx.failures[ctx.failures.index(f)] = g
+    return fails_with, shrink, shrink_failures
 
 
-def shrink(ctx, inp, clause, max_tests=60):
-    """delta-debug the history (the failing command stays last), then drop the missing directories"""
-    cmds = inp["cmds"]
-    head, last = cmds[:-1], cmds[-1]
-
-    def still(sub):
-        return fails_with(ctx, {"missing": inp["missing"], "cmds": list(sub) + [last]}, clause)
-    if head and still([]):
-        head = []
-    elif len(head) >= 2:
-        head = common.ddmin(head, still, max_tests=max_tests)
-    elif len(head) == 1 and still([]):
-        head = []
-    out = {"missing": inp["missing"], "cmds": head + [last]}
-    if inp["missing"] and fails_with(ctx, {"missing": [], "cmds": out["cmds"]}, clause):
-        out["missing"] = []
-    return out
+fails_with, shrink, shrink_failures = make_shrinker("C06", _run_one, check_case, "c06")
